@@ -44,7 +44,20 @@ pub fn panic_key(src: &mut SrcLines, file: &str, line: u32, msg: &str) -> String
     } else {
         file.to_string()
     };
-    let head: String = msg.chars().take(60).collect();
+    // positions and counts inside messages vary with the input: digits are not part of the site
+    let mut head = String::new();
+    let mut last_hash = false;
+    for c in msg.chars().take(80) {
+        if c.is_ascii_digit() {
+            if !last_hash {
+                head.push('#');
+            }
+            last_hash = true;
+        } else {
+            head.push(c);
+            last_hash = false;
+        }
+    }
     format!("PANIC|dep:{}:{}|{}", short, line, head)
 }
 
